@@ -21,6 +21,8 @@ pub mod time {
     }
     pub fn advance(d: Duration) {
         NOW_NS.fetch_add(d.as_nanos().min(u64::MAX as u128 / 4) as u64, Ordering::SeqCst);
+        // readers that wait with a timeout look at the clock again
+        super::net::clock_moved();
     }
     #[derive(Clone, Copy, Debug, PartialEq, Eq, PartialOrd, Ord, Hash)]
     pub struct Instant(u64);
@@ -142,6 +144,8 @@ pub mod net {
         closed: bool,
         /// 0 = unbounded; otherwise a write blocks while this many bytes are waiting to be read
         cap: usize,
+        /// SO_RCVTIMEO of the reading end (shared by its clones, like the socket option)
+        read_timeout: Option<std::time::Duration>,
     }
 
     struct Chan {
@@ -177,18 +181,41 @@ pub mod net {
     }
 
     /// (emulator end, controller end, handle to end the emulator process)
+    static CHANS: std::sync::Mutex<Vec<std::sync::Weak<Chan>>> = std::sync::Mutex::new(Vec::new());
+    pub(super) fn clock_moved() {
+        let chans: Vec<Arc<Chan>> = CHANS.lock().unwrap().iter().filter_map(|w| w.upgrade()).collect();
+        for c in chans {
+            c.cv.notify_all();
+        }
+    }
+
     /// `cap_to_peer`: buffer bound of the emulator-to-controller direction (0 = unbounded)
     pub fn pair(short: bool, cap_to_peer: usize) -> (TcpStream, TcpStream, ProcessHandle) {
         PROCESS_GONE.store(false, std::sync::atomic::Ordering::SeqCst);
         super::time::reset();
         let a = Arc::new(Chan { m: Mutex::new(Dir::default()), cv: Condvar::new() });
         let b = Arc::new(Chan { m: Mutex::new(Dir { cap: cap_to_peer, ..Dir::default() }), cv: Condvar::new() });
+        *CHANS.lock().unwrap() = vec![Arc::downgrade(&a), Arc::downgrade(&b)];
         (TcpStream { rx: a.clone(), tx: b.clone(), short, emu: true }, TcpStream { rx: b.clone(), tx: a, short, emu: false }, ProcessHandle { to_peer: b })
     }
 
     impl TcpStream {
         pub fn try_clone(&self) -> io::Result<TcpStream> {
             Ok(TcpStream { rx: self.rx.clone(), tx: self.tx.clone(), short: self.short, emu: self.emu })
+        }
+        /// Socket options: the read timeout is honoured against the simulated clock, the others are accepted.
+        pub fn set_read_timeout(&self, t: Option<std::time::Duration>) -> io::Result<()> {
+            self.rx.m.lock().unwrap().read_timeout = t;
+            Ok(())
+        }
+        pub fn read_timeout(&self) -> io::Result<Option<std::time::Duration>> {
+            Ok(self.rx.m.lock().unwrap().read_timeout)
+        }
+        pub fn set_write_timeout(&self, _t: Option<std::time::Duration>) -> io::Result<()> {
+            Ok(())
+        }
+        pub fn set_nodelay(&self, _on: bool) -> io::Result<()> {
+            Ok(())
         }
         pub fn shutdown(&self, how: std::net::Shutdown) -> io::Result<()> {
             use std::net::Shutdown::*;
@@ -222,6 +249,7 @@ pub mod net {
                 return Ok(0);
             }
             let mut d = self.rx.m.lock().unwrap();
+            let started = super::time::Instant::now();
             loop {
                 if !d.buf.is_empty() {
                     let avail = d.buf.len().min(out.len());
@@ -238,6 +266,11 @@ pub mod net {
                 }
                 if d.closed {
                     return Ok(0);
+                }
+                if let Some(t) = d.read_timeout {
+                    if started.elapsed() >= t {
+                        return Err(io::Error::new(io::ErrorKind::WouldBlock, "read timed out"));
+                    }
                 }
                 d = self.rx.cv.wait(d).unwrap();
             }
